@@ -687,11 +687,23 @@ def report_silent_exits(chk, rule: str, fis, cov: set, what: str, consequence: D
     took is an outcome for *other* inputs - records that are skipped, a loop that ends early, a result returned before the work is
     done - chosen by a condition on the data: by closed-world reasoning (the statement quantifies over all well-formed inputs, and
     the representatives cover the classes it names) that is a violation, reported with the condition.  Returns the number reported."""
-    from sa.fragment import unreached_exits
+    from sa.fragment import one_way_emissions, unreached_exits
 
     n = 0
     for fi in fis:
         data = [a.arg for a in fi.node.args.args[:1]]
+        for st, way in one_way_emissions(fi.node, cov, data):
+            n += 1
+            if n > 2:
+                continue
+            chk.violation(
+                rule,
+                fi.site(st),
+                f"the condition `{norm(st.test)[:90]}` is never {way} for the representative {what}, and only the arm they take emits the record: for input on the other side of the condition "
+                f"{consequence.get('continue', 'the record is not emitted')} - silently, and the condition depends on the data, not on the request",
+                K(fi, f"one-way-emission:{norm(st.test)[:40]}"),
+                found=norm(st.test)[:120],
+            )
         for st, guard in unreached_exits(fi.node, cov, data=data):
             kind = {"Continue": "continue", "Break": "break", "Return": "return"}[type(st).__name__]
             n += 1
@@ -886,4 +898,259 @@ def check_cif_eval(chk) -> bool:
         )
         chk.expect(not bad.get("result"), "reader-result", fi.where, "evaluated: all decoded atoms pass through the duplicate/clash filter once", "; ".join(bad.get("result", [])[:1]), K(fi, "result"))
         report_silent_exits(chk, "cif-row-skip", [fi] + new_helpers(repo, P), cov, "atom_site rows", {"continue": "the row is skipped: an atom of the file is not among the atoms read", "break": "reading stops there: the rows that follow are not read", "return": "reading ends there"})
+    return True
+
+
+# --------------------------------------------------------------------------------------------------------------------
+# parser_v2.parse_pdb_atoms interpreted as a whole (round 4): documents, not single lines
+# --------------------------------------------------------------------------------------------------------------------
+class V2Reader:
+    """parse_pdb_atoms interpreted from its ast; `pd` is the stand-in of sa/frame.py, the file is a TextFile stub or a plain string."""
+
+    def __init__(self, repo):
+        from sa.frame import pd_namespace
+
+        self.repo = repo
+        self.fi = repo.func("parser_v2", "parse_pdb_atoms")
+        env: Dict[str, Any] = {"pd": pd_namespace(), "object": object, "bytes": bytes, "str": str, "io": Obj("io", StringIO=TextFile)}
+        env.update(module_callables(repo, "parser_v2", outer=env))
+        self.call = func_callable(repo, "parser_v2", self.fi.node, env, max_steps=40000)
+
+    def read(self, lines: List[str], as_text: bool = False):
+        from sa.frame import Frame
+
+        doc = [l.rstrip("\n") + "\n" for l in lines]
+        res = self.call("".join(doc)) if as_text else self.call(TextFile(doc))
+        if not isinstance(res, Frame):
+            raise Unknown("parse_pdb_atoms does not return a table")
+        return res
+
+
+def check_v2_reader_eval(chk) -> bool:
+    """Rules pdb-record-filter and pdb-decode-v2 decided on whole documents: which records of a file become rows (every ATOM / HETATM
+    line of every model, nothing else, whatever follows TER / ENDMDL / other records), with which model number, typed how."""
+    from sa.fragment import coverage
+    from sa.frame import isna
+
+    repo = chk.repo
+    sp = spec("pdb_columns.json")
+    fi = repo.func("parser_v2", "parse_pdb_atoms")
+    wrong: Dict[str, str] = {}
+    stops: List[str] = []
+    raises: Dict[str, str] = {}
+    other: List[str] = []
+    decoded: Optional[Dict[str, Any]] = None
+    fields = dict(ATOM_FIELDS, tempFactor=" 42.17", element=" C", charge="1-", altLoc="A")
+    atom_line = pdb_line(sp, "ATOM", fields)
+    classes = [(t, (pdb_line(sp, t.split()[0], fields) if t.split()[0] in ("ATOM", "HETATM", "ANISOU") and "5-digit" not in t else l), y, m) for t, l, y, m in record_classes(sp)]
+    _cov = coverage()
+    cov = _cov.__enter__()
+    try:
+        rd = V2Reader(repo)
+        for tag, line, yields, may_follow in classes:
+            for as_text in (False, True):
+                try:
+                    got = rd.read([line], as_text)
+                except Raised as ex:
+                    raises[tag] = ex.name
+                    continue
+                except Unknown:
+                    raise
+                except Exception as ex:
+                    raises[tag] = type(ex).__name__
+                    continue
+                if (len(got.index) > 0) != yields:
+                    wrong[tag] = "decoded as an atom" if len(got.index) else "not decoded"
+            if not yields and tag != "END":
+                try:
+                    after = rd.read([line, atom_line])
+                    if len(after.index) != 1:
+                        stops.append(tag)
+                except Unknown:
+                    raise
+                except Exception:
+                    stops.append(tag)
+        m = lambda k: f"MODEL     {k:>4}".ljust(80)
+        water = pdb_line(sp, "HETATM", dict(fields, resName="HOH", name=" O  ", element=" O"))
+        hydrogen = pdb_line(sp, "ATOM", dict(fields, name=" H5'", element=" H"))
+        doc = [m(1), atom_line, hydrogen, "TER".ljust(80), water, "ENDMDL".ljust(80), m(2), atom_line, "TER".ljust(80), water, "ENDMDL".ljust(80), "END".ljust(80)]
+        full = rd.read(doc)
+        models = [None if isna(v) else int(v) for v in full._cols.get("model", [])]
+        kinds = list(full._cols.get("record_type", []))
+        if models != [1, 1, 1, 2, 2] or kinds != ["ATOM", "ATOM", "HETATM", "ATOM", "HETATM"]:
+            other.append(f"a file with MODEL 1 (two atoms, TER, a water) and MODEL 2 (one atom, TER, a water) yields records {kinds} of models {models}")
+        nomodel = rd.read([atom_line])
+        if [int(v) for v in nomodel._cols.get("model", []) if not isna(v)] != [1]:
+            other.append(f"without a MODEL record an atom gets model {list(nomodel._cols.get('model', []))}")
+        if nomodel.attrs.get("format") != "PDB":
+            other.append(f"the table is tagged format={nomodel.attrs.get('format')!r}, not 'PDB'")
+        empty = rd.read(["REMARK   1 no atoms here".ljust(80)])
+        if len(empty.index) != 0 or [c for c in sp["atom"] if c not in empty._cols] or "model" not in empty._cols:
+            other.append("a file without atom records does not give an empty table with the PDB columns")
+        if len(nomodel.index) == 1:
+            decoded = {c: nomodel._cols[c][0] for c in nomodel._cols}
+        blank = rd.read([pdb_line(sp, "ATOM", {k: v for k, v in fields.items() if k not in ("altLoc", "iCode", "element", "charge")})])
+        blank_bad = {k: blank._cols[k][0] for k in ("altLoc", "iCode", "element", "charge") if len(blank.index) == 1 and not isna(blank._cols[k][0])} if len(blank.index) == 1 else {"line": "not decoded"}
+    except Unknown as ex:
+        chk.ok("pdb-reader-v2-eval", fi.where, f"parse_pdb_atoms is not evaluable as a whole on representative documents ({str(ex)[:80]}): the line loop is evaluated line by line")
+        return False
+    finally:
+        _cov.__exit__(None, None, None)
+    loops = [l for l in fi.node.body if isinstance(l, ast.For) and isinstance(l.target, ast.Name)]
+    site = fi.site(loops[0]) if loops else fi.where
+    with evidence(chk, "pdb-record-filter", "pdb-decode-v2", "null-agreement"):
+        bits = [f"a {k} line is {v}" for k, v in wrong.items()] + [f"a {k} line raises {v}" for k, v in raises.items()]
+        chk.expect(not bits, "pdb-record-filter", site, f"evaluated on {len(classes)} record classes, as a file object and as text: parser_v2 keeps exactly the lines whose record name (columns 1-6) is ATOM or HETATM", "parser_v2 does not keep exactly the ATOM / HETATM lines: " + "; ".join(bits[:4]) + ": atom lines are lost or foreign lines decoded", K(fi, "record-filter"), found={**wrong, **raises})
+        if stops or other:
+            what = (f"reading stops at a {', '.join(stops)} record: the atom records that follow it are never read (of a multi-model file only the first model)" if stops else "") + ("; " if stops and other else "") + "; ".join(other[:2])
+            chk.violation("pdb-record-filter", site, what, K(fi, "record-loop-v2"), found={"stops at": stops, "other": other[:3]})
+        else:
+            chk.ok("pdb-record-filter", site, "evaluated on whole documents: no record ends the reading, every ATOM / HETATM line of every model (hydrogens, waters, atoms after TER) becomes a row with its model number; without MODEL records the model is 1; a MODEL line sets the current model from columns 11-14")
+        if decoded is not None:
+            want = {"record_type": "ATOM", "serial": 417, "name": "CA", "altLoc": "A", "resName": "G", "chainID": "B", "resSeq": -12, "iCode": "C", "x": 11.25, "y": -22.5, "z": 33.125, "occupancy": 0.5, "tempFactor": 42.17, "element": "C", "charge": "1-", "model": 1}
+            bad = {k: (decoded.get(k, "<absent>"), v) for k, v in want.items() if not (decoded.get(k, "<absent>") == v and isinstance(decoded.get(k), (int, float)) == isinstance(v, (int, float)))}
+            chk.expect(not bad, "pdb-decode-v2", site, "evaluated: an ATOM line with a distinct value in every field is decoded field for field and typed (serial, number and model as integers - the sign kept -, coordinates, occupancy and B as numbers, the rest as text)", f"fields decoded wrongly from a fully populated ATOM line: { {k: g for k, (g, w) in bad.items()} } (expected { {k: w for k, (g, w) in bad.items()} })", K(fi, "decode"), expected={k: w for k, (g, w) in bad.items()}, found={k: repr(g) for k, (g, w) in bad.items()})
+        chk.expect(not blank_bad, "null-agreement", fi.where, "evaluated: blank optional PDB fields (altLoc, iCode, element, charge) read as missing values", f"blank optional PDB fields are not read as missing: {blank_bad}", K(fi, "blank-none"), found=blank_bad)
+        report_silent_exits(chk, "pdb-record-filter", [fi] + new_helpers(repo, "parser_v2"), cov, "documents (one line per record class, a two-model file with hydrogens and waters)", {"continue": "the line is skipped: an atom record of the file is not among the rows", "break": "reading stops there: the atom records that follow are not read", "return": "reading ends there"})
+    return True
+
+
+# --------------------------------------------------------------------------------------------------------------------
+# parser_v2.parse_cif_atoms interpreted as a whole (round 4)
+# --------------------------------------------------------------------------------------------------------------------
+class _TmpFile:
+    """tempfile.NamedTemporaryFile(...) as a context manager: a named buffer."""
+
+    _folder_stub = True
+    _blockeval_context = True
+    name = "/nonexistent/representative.cif"
+
+    def __init__(self, *a, **k):
+        self.parts: List[str] = []
+
+    def write(self, s):
+        self.parts.append(s)
+        return len(s)
+
+    def seek(self, *a):
+        return 0
+
+    def read(self):
+        return "".join(self.parts)
+
+    def flush(self):
+        return None
+
+    def close(self):
+        return None
+
+
+class V2CifReader:
+    """parse_cif_atoms interpreted from its ast.  The mmcif library is a stub that hands out the atom_site category as attribute names
+    and rows of strings (what IoAdapterPy does); `pd` is the stand-in of sa/frame.py; temporary files are named buffers."""
+
+    def __init__(self, repo):
+        from sa.frame import pd_namespace
+
+        self.repo = repo
+        self.fi = repo.func("parser_v2", "parse_cif_atoms")
+        self.category: Optional[_Category] = None
+        self.reads: List[str] = []
+        reader = Obj("adapter", readFile=lambda path, *a, **k: (self.reads.append(path), [_Container({"atom_site": self.category} if self.category is not None else {})])[1])
+        env: Dict[str, Any] = {
+            "pd": pd_namespace(), "object": object, "bytes": bytes, "str": str, "IoAdapterPy": lambda *a, **k: reader, "IoAdapterCore": lambda *a, **k: reader,
+            "io": Obj("io", StringIO=TextFile), "tempfile": Obj("tempfile", NamedTemporaryFile=_TmpFile), "os": Obj("os", remove=lambda p: None, unlink=lambda p: None, path=Obj("path", exists=lambda p: True)),
+            "hasattr": lambda o, a: hasattr(o, a),
+        }
+        env.update(module_callables(repo, "parser_v2", outer=env))
+        self.call = func_callable(repo, "parser_v2", self.fi.node, env, max_steps=60000)
+
+    def read(self, rows: List[Dict[str, str]], how: str = "text"):
+        from sa.frame import Frame
+
+        attrs: List[str] = []
+        for r in rows:
+            for k in r:
+                if k not in attrs:
+                    attrs.append(k)
+        self.category = _Category(attrs, [[r.get(a, "?") for a in attrs] for r in rows]) if rows else None
+        if how == "text":
+            arg: Any = "data_representative\n#\n"
+        elif how == "stringio":
+            arg = TextFile(["data_representative\n", "#\n"])
+        else:
+            arg = Obj("file", name="/nonexistent/representative.cif", seek=lambda *a: 0, read=lambda: "data_representative\n")
+        res = self.call(arg)
+        if not isinstance(res, Frame):
+            raise Unknown("parse_cif_atoms does not return a table")
+        return res
+
+
+CIF_V2_ROWS = [
+    dict(CIF_FULL),
+    dict(CIF_FULL, id="8", label_atom_id="P", auth_atom_id="P", type_symbol="P", pdbx_PDB_ins_code="?", label_alt_id="A", occupancy="1.00", pdbx_formal_charge="-1", Cartn_x="-0.001", pdbx_PDB_model_num="2"),
+    dict(CIF_FULL, id="9", group_PDB="HETATM", label_comp_id="HOH", auth_comp_id="HOH", label_atom_id="O", auth_atom_id="O", type_symbol="O", label_seq_id=".", pdbx_PDB_ins_code=".", auth_seq_id="301", pdbx_PDB_model_num="3", B_iso_or_equiv="?"),
+]
+
+
+def check_cif_atoms_eval(chk) -> bool:
+    """parse_cif_atoms on one atom_site category per class of cell value (text / StringIO / named file input): every row becomes a row of
+    the table in file order, every item a column, both null markers a missing value, numbers typed as numbers, format tag mmCIF."""
+    from sa.fragment import coverage
+    from sa.frame import isna
+
+    repo = chk.repo
+    fi = repo.func("parser_v2", "parse_cif_atoms")
+    bad: Dict[str, List[str]] = {}
+    _cov = coverage()
+    cov = _cov.__enter__()
+    try:
+        rd = V2CifReader(repo)
+        for how in ("text", "stringio", "file"):
+            try:
+                t = rd.read(CIF_V2_ROWS, how)
+            except Raised as ex:
+                bad.setdefault("rows", []).append(f"input as {how}: parse_cif_atoms raises {ex.name}")
+                continue
+            except Unknown:
+                raise
+            except Exception as ex:
+                bad.setdefault("rows", []).append(f"input as {how}: parse_cif_atoms raises {type(ex).__name__} ({str(ex)[:50]})")
+                continue
+            if len(t.index) != len(CIF_V2_ROWS) or [str(v) for v in t._cols.get("id", [])] != [r["id"] for r in CIF_V2_ROWS]:
+                bad.setdefault("rows", []).append(f"input as {how}: atom_site rows with ids {[r['id'] for r in CIF_V2_ROWS]} come back as rows {[str(v) for v in t._cols.get('id', [])]}")
+                continue
+            missing = [a for a in CIF_FULL if a not in t._cols]
+            if missing:
+                bad.setdefault("rows", []).append(f"input as {how}: items {missing[:4]} are not columns of the table")
+                continue
+            for k, row in enumerate(CIF_V2_ROWS):
+                for item, txt in row.items():
+                    got = t._cols[item][k]
+                    if txt in ("?", "."):
+                        if not isna(got):
+                            bad.setdefault("null", []).append(f"{item} = `{txt}` is read as {got!r}, not as a missing value")
+                    elif item in ("Cartn_x", "Cartn_y", "Cartn_z", "occupancy", "B_iso_or_equiv"):
+                        if not (isinstance(got, (int, float)) and abs(got - float(txt)) < 1e-9):
+                            bad.setdefault("types", []).append(f"{item} = `{txt}` is read as {got!r}, not as the number")
+                    elif item in ("label_seq_id", "pdbx_PDB_model_num", "pdbx_formal_charge"):
+                        if not (isinstance(got, int) and not isinstance(got, bool) and got == int(txt)):
+                            bad.setdefault("types", []).append(f"{item} = `{txt}` is read as {got!r}, not as the integer")
+                    elif str(got) != txt:
+                        bad.setdefault("types", []).append(f"{item} = `{txt}` is read as {got!r}")
+            if t.attrs.get("format") != "mmCIF":
+                bad.setdefault("rows", []).append(f"the table is tagged format={t.attrs.get('format')!r}, not 'mmCIF'")
+        empty = rd.read([], "text")
+        if len(empty.index) != 0:
+            bad.setdefault("rows", []).append("a file without an atom_site category does not give an empty table")
+    except Unknown as ex:
+        chk.ok("cif-atoms-eval", fi.where, f"parse_cif_atoms is not evaluable as a whole on representative categories ({str(ex)[:80]}): the pinned-form rule decides")
+        return False
+    finally:
+        _cov.__exit__(None, None, None)
+    with evidence(chk, "null-markers-v2", "cif-table"):
+        chk.expect(not bad.get("null"), "null-markers-v2", fi.where, "evaluated: parser_v2 reads both mmCIF null markers (`?` and `.`) as missing values, in every item", "parser_v2 does not treat both `?` and `.` as missing: " + "; ".join(sorted(set(bad.get("null", [])))[:3]), K(fi, "nulls"), found=sorted(set(bad.get("null", [])))[:6])
+        chk.expect(not bad.get("rows"), "cif-table", fi.where, "evaluated (text, StringIO and named-file input): every atom_site row becomes a row of the table in file order, every item a column, tagged format='mmCIF'", "atom_site rows are lost, reordered or refused: " + "; ".join(bad.get("rows", [])[:2]), K(fi, "cif-rows"), found=bad.get("rows", [])[:4])
+        chk.expect(not bad.get("types"), "cif-table", fi.where, "evaluated: coordinates, occupancy and B as numbers, label_seq_id / model / charge as integers (the sign kept), the other items as their text", "items are typed or copied wrongly: " + "; ".join(sorted(set(bad.get("types", [])))[:3]), K(fi, "cif-types"), found=sorted(set(bad.get("types", [])))[:6])
+        report_silent_exits(chk, "cif-table", [fi] + new_helpers(repo, "parser_v2"), cov, "atom_site categories", {"continue": "the row (or item) is skipped", "break": "reading stops there", "return": "a table is returned before all rows are read"})
     return True
